@@ -2,6 +2,7 @@
 from pyvc.dsl import sorts
 
 sorts(
+    argparser="obj:ArgumentParser",
     model="obj:ModelMeta", blacklist_words="set", convert_unicode="bool", post_init_converters="bool", no_meta="bool",
     percent_fields="float", number_fields="int",
     _overflow="bool", _literals="set", MAX_LITERALS="int", MAX_STRING_LENGTH="int",
